@@ -114,7 +114,8 @@ def step(C, ns, m, op, history):
     failed = False
     # (1) outcome
     if mr[0] == "exc":
-        if rr != mr:
+        # the statement fixes what the Namespace holds afterwards, not the class of the error: any exception is a refusal
+        if rr[0] != "exc":
             failed = True
             cls = op_class(pre_m, op)
             sym = "raises:" + rr[1] if rr[0] == "exc" else "no-raise"
